@@ -170,7 +170,7 @@ class Variants(Instance):
     def __init__(self, name, k, segs, maxlens, alpha):
         Instance.__init__(self, name)
         self.k, self.segs, self.maxlens, self.alpha = k, segs, maxlens, alpha
-        self.required_witnesses = ("has_splitter", "two_contigs")
+        self.required_witnesses = ("has_splitter", "two_contigs") if len(maxlens) > 1 else ("has_splitter",)
         self.n_concrete = 8
         self.bounds = {"k": k, "segment_size": segs, "reference": f"FASTA file with {len(maxlens)} record(s) of length 1..{maxlens} over codes {alpha} (non-PanSN headers: one sample)",
                        "relation": "splitters, singletons and duplicates of determine_splitters_streaming and determine_splitters_streaming_first_sample equal those of determine_splitters"}
